@@ -14,6 +14,28 @@ register("C20", "exploration",
  "Hypothesis generators + atheris coverage-guided fuzzing against reference validator / totality oracle / eval differential",
  "DESIGN.md section 3 C20")
 
+register("C02", "exploration",
+ "Generated workflows (core corpus, random DAGs, loops, early-firing joins) are run under generated delivery schedules (reordering, up to 3 lost acks per row, hold-back bias on one message type) and, for 6 tiny specs, under every (row x ack/lose) choice in a window of d deliveries; each run is compared with the FIFO exactly-once run of the same engine (equality on confluent specs, validity predicate on racy ones), stage starts <= 1 + re-arms, execution counts equal. Random + bounded-exhaustive search; no absence claim beyond the enumerated windows.",
+ "Single worker thread (interleavings are C04/C07/C11); fairness rule for self re-queuing wait messages; SQLite only; reference is the engine's own FIFO run.",
+ "Hypothesis-generated specs x schedules + bounded-exhaustive schedule DFS, differential against the FIFO run",
+ "DESIGN.md section 3 C02")
+
+register("C03", "exploration",
+ "Generated DAGs with every join type, failing/skipped branches and OR-splits of known truth are run under generated schedules with injected early/late/duplicate StartStage messages, plus an exhaustive sweep of one injected StartStage over every (stage, delivery position) of 27 fixed specs; for every task execution the join condition is re-evaluated by an independent model over the durable audit trail up to the preceding step. Random + enumerated search.",
+ "Upstream statuses are reconstructed from trigger-written audit rows; single worker thread; OR-split truth values are literals; SQLite only.",
+ "Hypothesis-generated DAGs x schedules x injected StartStage, invariant over the execution history checked by a reference join model",
+ "DESIGN.md section 3 C03")
+register("C05", "exploration",
+ "Generated workflows emphasising halting failures beside running siblings, early-firing joins, synthetic before/after children, mutex, deferred choice, gates and jump loops are driven under generated schedules (with duplicate StartStage injections) until nothing is deliverable; at that quiescent point the workflow must be final or explicitly waiting, SUCCEEDED implies all top-level stages continuable, a TERMINAL stage implies a failed workflow, nothing is left RUNNING, DLQ empty. Bounded liveness by exhaustive delivery; random search over specs and schedules.",
+ "Liveness is bounded liveness under the fairness rule (DESIGN 2.5); single worker; SQLite only.",
+ "Hypothesis-generated specs x schedules, validity predicate at quiescence",
+ "DESIGN.md section 3 C05")
+register("C06", "exploration",
+ "Every durable status change observed (SQL-trigger audit rows) in engine-D runs with injected cancel/signal/recovery/duplicate-StartStage operations - and, where built, engine-K crash recoveries and engine-I races - is checked against VALID_TRANSITIONS imported from the code under test, with only JumpToStage/RestartStage allowed to re-arm. Random search; evaluations are audit rows.",
+ "Audit rows are written by harness-installed triggers; the writer is the message type in flight; a change to the published table itself is out of scope.",
+ "invariant over generated histories (trigger audit of durable status changes vs. the published transition table)",
+ "DESIGN.md section 3 C06")
+
 NOT_APPLICABLE = {}
 
 def main():
